@@ -660,7 +660,7 @@ ASSUMPTIONS = [
     "12 MHz full-speed UTMI configuration, block-RAM descriptor handler (all descriptors are bytes), no skiplist",
 ]
 
-CYC_MODULES = ["LunaVerif.Lemmas.C07CycSteps", "LunaVerif.Lemmas.C07Refine", "LunaVerif.Lemmas.C07RefineEvents",
+CYC_MODULES = ["LunaVerif.Lemmas.C07CycSteps", "LunaVerif.Lemmas.C07CycInv", "LunaVerif.Lemmas.C07Refine", "LunaVerif.Lemmas.C07RefineEvents",
                "LunaVerif.Lemmas.C07RefineMain"]
 CYC_RULE = (" | cycle level (extra_checks, harness/props/c07_cyc.py): cases = (descriptor-set shape, endpoint number, max packet "
             "size) x a per-cycle micro-host driving the EndpointInterface of the standalone USBControlEndpoint + "
